@@ -391,7 +391,7 @@ func spawn(args []string, env []string, v any) error {
 
 func Run(r *report.Run) {
 	thorough := r.Tier == "thorough"
-	r.Rule = "(1) map order as an environment answer: the check binary is linked against a Go runtime whose map-iteration start (per call site) and per-map hash seed are chosen by the harness; for each of 21 operations (plans of the 3 planners over the differ universe incl. reverse statements and comments, order of diff results, MarshalHCL, EvalHCL+marshal, 6 formatters, MemDir/LocalDir checksums, Validate error classification, scope error text, evaluation of a schema split over 6 HCL files with a local used across files, replay of two migration directories - one creating a view - on one process-wide SQLite dev connection, MySQL diffs that derive the default collation of a stated character set / the character set of a stated collation through the process-wide differ's lazily loaded tables) the baseline (start 0) is compared byte for byte with: every site shifted at once (14 start values), one site at a time (deviation bound 1; thorough: pairs of atlas sites, bound 2), worker processes with hash seed 0,1(,2), and an uncontrolled (really random) process; (2) declaration order: all permutations of the top-level blocks and of the index blocks, reversed foreign-key/check blocks of an HCL source -> same multiset of statements and equal SQLite catalogue; (3) every sequence of <=2 (thorough 3) operations from a 10-operation alphabet in one process: the last operation's output equals its output as first operation of a fresh process; (4) every unordered pair of the operations (and each with itself) run at the same time, twice, in a binary built with -race: outputs equal the solo outputs and the race detector reports nothing; (5) the real atlas CLI linked against the same runtime: 10 commands (schema inspect as HCL/SQL/JSON, schema apply --dry-run and schema diff against a desired state split over several files and directories, migrate diff writing a file and atlas.sum, migrate hash, migrate lint as JSON, migrate apply --dry-run, migrate apply --dry-run --env with two template_dir data sources over one path) x hash seeds {0,1,2} x iteration starts {0,1,2,3,5,7} at every site, plus two runs with real randomness: stdout, exit status and every file written must be byte-identical to the baseline (work-directory paths and printed durations masked); non-trivial = run under a non-default answer; distinct = (operation, deviation)"
+	r.Rule = "(1) map order as an environment answer: the check binary is linked against a Go runtime whose map-iteration start (per call site) and per-map hash seed are chosen by the harness; for each of 24 operations (plans of the 3 planners over the differ universe incl. reverse statements and comments, order of diff results, MarshalHCL (also of a three-schema realm whose table names collide with each other and with the qualifier labels), EvalHCL+marshal, 6 formatters, MemDir/LocalDir checksums, Validate error classification, scope error text, evaluation of a schema split over 6 HCL files with a local used across files, replay of two migration directories - one creating a view - on one process-wide SQLite dev connection, MySQL diffs that derive the default collation of a stated character set / the character set of a stated collation through the process-wide differ's lazily loaded tables) the baseline (start 0) is compared byte for byte with: every site shifted at once (14 start values), one site at a time (deviation bound 1; thorough: pairs of atlas sites, bound 2), worker processes with hash seed 0,1(,2), and an uncontrolled (really random) process; (2) declaration order: all permutations of the top-level blocks and of the index blocks, reversed foreign-key/check blocks of an HCL source -> same multiset of statements and equal SQLite catalogue; (3) every sequence of <=2 (thorough 3) operations from a 10-operation alphabet in one process: the last operation's output equals its output as first operation of a fresh process; (4) every unordered pair of the operations (and each with itself) run at the same time, twice, in a binary built with -race: outputs equal the solo outputs and the race detector reports nothing; (5) the real atlas CLI linked against the same runtime: 10 commands (schema inspect as HCL/SQL/JSON, schema apply --dry-run and schema diff against a desired state split over several files and directories, migrate diff writing a file and atlas.sum, migrate hash, migrate lint as JSON, migrate apply --dry-run, migrate apply --dry-run --env with two template_dir data sources over one path) x hash seeds {0,1,2} x iteration starts {0,1,2,3,5,7} at every site, plus two runs with real randomness: stdout, exit status and every file written must be byte-identical to the baseline (work-directory paths and printed durations masked); non-trivial = run under a non-default answer; distinct = (operation, deviation)"
 	r.Assumptions = []string{
 		"in the declaration-order part a statement is compared as the multiset of its clause lines (constraint clauses of one CREATE TABLE are independent and follow declaration order)",
 		"wall-clock stamps written by third-party formatters are masked (14 digits); Plan.Version is always supplied",
